@@ -36,6 +36,31 @@ CLAIMED = {
  "C09": ("4/C09", "ra.sum(axis=0) and np.sum(ra, axis=0) for int64, bool and unsigned cells, col_counts(), get_column_values(j) with symbolic j, over symbolic "
          "row lengths with at least one non-empty row: column j sums/counts exactly the rows longer than j; result length = longest row",
          "bounds: rows<=4 (5), row length<=3 (4); |cell|<2^40 (float64-exact weighted bincount); element type of the result not compared; column mean not yet covered"),
+ "C11": ("4/C11", "HashTable as a dict: three state families (per-key values / scalar / scalar materialised by a first write) x one operation with symbolic "
+         "arguments (scalar and vector lookup with repeats, absent keys refused; scalar and vector assignment with scalar or per-key values; contains; "
+         "HashSet.contains scalar and vector; fill; zeros_like/ones_like; +; ==; items) followed by a read-back of every key; distinct symbolic keys up to 2^62 "
+         "(and int8/uint8 keys), modulus forked over 1..2 (3) and the default 2n-1, numpy's unstable argsort modelled as any sorting permutation",
+         "bounds: keys<=2 (3), queries<=2 (3); preconditions: scalar lookups/assignments address present keys, vector assignment targets distinct; "
+         "KF-C11-1 (scalar-valued table does not check membership) is an open known finding"),
+ "C12": ("4/C12", "Counter: initial value default 0 / scalar / per-key array, then one or two count(batch) calls with symbolic samples (keys, colliding non-keys, "
+         "non-keys in empty buckets, repeats, empty batches, python lists), then every key read back: total = initial + occurrences; every modulus 1..2(3) and the default",
+         "bounds: keys<=2 (3), batch<=2 (3), batches<=2"),
+ "C13": ("4/C13", "BitArray.pack/unpack, packed[i] with symbolic i, packed[index list].unpack(), sliding_window(w) for every w with w*b<=64, for b in {32,16,8,4,2,1}, "
+         "lengths around the 64-bit register boundaries (1,2,3,k-1,k,k+1,2k-1,2k,2k+1), input dtypes uint8/uint16/int32/int64/uint64; cells are bit-vectors constrained < 2^b",
+         "bounds: n <= 2k+1 registers' worth (quick: edges only; thorough: every n up to 2k+2 for b>=4)"),
+ "C14": ("4/C14", "RunLengthArray.from_array(a) for bool, int8/uint8/int32/int64/uint64 bit-vectors and float16/32/64 bit patterns (NaN, +-0 through FP predicates): "
+         "to_array / np.asarray round trip under the dtype's equality, dtype, len/size/shape/ndim, starts/ends/values; canonical form (events 0=e0<...<ek=n, adjacent values differ, "
+         "each run holds its cells' value); canonical form re-asserted on slicing and binary-ufunc results in C15/C16",
+         "bounds: n<=4 (6)"),
+ "C15": ("4/C15", "rla[i] (negative, out of range refused), rla[list/array], rla[dense bool mask], rla[run-length bool mask], rla[a:b:s] with symbolic/absent bounds in +-(n+2) "
+         "and steps +-1,+-2,+-3, rla[starts:stops] windows; decoded result equals the same index on the dense array; RunLengthArray results canonical",
+         "bounds: n<=4 (5); 64-bit cells"),
+ "C16": ("4/C16", "unary ufuncs, binary ufuncs of two equally long run-length arrays (all alignments of the two boundary sets), scalar on either side (ufunc and operator forms), "
+         "sum/np.sum/any/all/max, concatenate of 2-3: decoded result equals the ufunc on the dense arrays, binary results canonical, operands unchanged",
+         "bounds: n<=3 (4); int64/bool/uint8+int8 cells as bit-vectors; mean and histogram not yet covered"),
+ "C18": ("4/C18", "npdataclass with 1-3 fields (1-D and 2-D): len, indexing by int / slice (symbolic bounds, steps None,-1,2) / list / array / mask, iteration, concatenate of 2-3, ==, "
+         "astype to a narrower class, refusal of unequal field lengths; VarLenArray concatenation (right-aligned, zero-padded)",
+         "bounds: n<=3 (4)"),
  "C05": ("4/C05", "sum/prod/any/all/max/min and bitwise_or/xor/and.reduce per row through the method, np.<func> and ufunc.reduce entry points, keepdims, "
          "and axis=None, over symbolic row lengths with empty rows anywhere (all-empty and zero rows included); multiplication as an uninterpreted left fold",
          "bounds: rows<=4 (5), row length<=3 (4); max/min with non-empty rows; result element type not compared (C04's subject); mean/argmax/argmin not yet covered"),
